@@ -557,6 +557,7 @@ pub fn crash_points(trace: &[OpRec]) -> Vec<(usize, bool)> {
 pub fn run(report: &Report, budget: &Budget) {
     let srcs = SrcCache::new();
     let mut scenarios = common::standard_scenarios(&srcs);
+    scenarios.extend(common::big_scenarios(&srcs));
     // plus every state of the history graph to depth 1 (thorough: 2) as "previous history"
     scenarios.extend(crate::c02::depth_states_as_scenarios(&srcs, if report.thorough() { 2 } else { 1 }, budget));
     let main_scratch = Scratch::new("c03");
